@@ -2,9 +2,24 @@
 from .tree import *  # noqa
 
 
+def _base(t):
+    t = (t or "").strip()
+    while t.startswith("&"):
+        t = t[1:].strip()
+        if t.startswith("mut "):
+            t = t[4:].strip()
+    import re
+    return re.sub(r"<.*$", "", t)
+
+
 def build(facts, crates=None):
     g = {}
     fns = {}
+    iter_impls = {}
+    for c, f in facts.all_fns(include_tests=False):
+        p = f["path"]
+        if p.startswith("<") and " as core::iter::traits::iterator::Iterator>::next" in p:
+            iter_impls[_base(p[1:].split(" as ")[0])] = p
     for c, f in facts.all_fns(include_tests=False):
         if crates and c.name not in crates:
             continue
@@ -16,6 +31,17 @@ def build(facts, crates=None):
                 out.add(p)
             if n.get("k") in ("call", "mcall") and n.get("path"):
                 out.add(n["path"])
+            if n.get("k") == "for":
+                for key in ("next_fn", "into_iter_fn"):
+                    if n.get(key):
+                        out.add(n[key])
+                t = _base(n["iter"].get("aty") or n["iter"].get("ty"))
+                if t in iter_impls:
+                    out.add(iter_impls[t])
+            if n.get("k") == "mcall" and (n.get("path") or "").startswith("core::iter::traits::iterator::Iterator::"):
+                t = _base(n["recv"].get("aty") or n["recv"].get("ty"))
+                if t in iter_impls:
+                    out.add(iter_impls[t])
             if n.get("k") == "def" and n.get("dk") in ("fn", "assoc_fn"):
                 out.add(n.get("res") or n["path"])
                 out.add(n["path"])
